@@ -1,5 +1,5 @@
 //! C16 - request-bound functions compose arrival and cost models additively.
-use response_time_analysis::arrival::{ArrivalBound, Sporadic};
+use response_time_analysis::arrival::ArrivalBound;
 use response_time_analysis::demand::{Aggregate, AggregateRequestBound, RequestBound, Slice, RBF};
 use response_time_analysis::time::{Duration, Service};
 use response_time_analysis::wcet::{JobCostModel, Multiframe, Scalar};
@@ -16,14 +16,14 @@ fn sn<R: RequestBound + ?Sized>(r: &R, d: u64) -> u64 {
     u64::from(r.service_needed(Duration::from(d)))
 }
 
-/// facts about one RBF at interval length `d` (at most MAXJ jobs) and job limit `n`
-fn rbf_facts<A: ArrivalBound, C: JobCostModel>(rbf: &RBF<A, C>, d: u64, n: usize) -> u64 {
+/// service_needed = cost of number_arrivals jobs; job_cost_iter sums to it (at most MAXJ jobs);
+/// least_wcet_in_interval is no larger than any job cost in the interval.
+/// Returns (total, number of jobs, the individual costs).
+fn rbf_basic<A: ArrivalBound, C: JobCostModel>(rbf: &RBF<A, C>, d: u64) -> (u64, usize, [u64; MAXJ]) {
     let jobs = rbf.arrival_bound.number_arrivals(Duration::from(d));
     assume(jobs <= MAXJ);
     let total = sn(rbf, d);
-    // service_needed = cost of number_arrivals jobs
     assert!(total == u64::from(rbf.wcet.cost_of_jobs(jobs)));
-    // job_cost_iter sums to it; collect the individual costs
     let mut costs = [0u64; MAXJ];
     let mut sum = 0u64;
     let mut cnt = 0usize;
@@ -32,7 +32,9 @@ fn rbf_facts<A: ArrivalBound, C: JobCostModel>(rbf: &RBF<A, C>, d: u64, n: usize
     while k < MAXJ + 1 {
         if let Some(c) = it.next() {
             assert!(k < MAXJ);
-            costs[k] = u64::from(c);
+            if k < MAXJ {
+                costs[k] = u64::from(c);
+            }
             sum += u64::from(c);
             cnt += 1;
         }
@@ -40,7 +42,6 @@ fn rbf_facts<A: ArrivalBound, C: JobCostModel>(rbf: &RBF<A, C>, d: u64, n: usize
     }
     assert!(cnt == jobs);
     assert!(sum == total);
-    // least_wcet_in_interval is no larger than any job cost in the interval
     let least = u64::from(rbf.least_wcet_in_interval(Duration::from(d)));
     let mut k = 0;
     while k < MAXJ {
@@ -49,14 +50,16 @@ fn rbf_facts<A: ArrivalBound, C: JobCostModel>(rbf: &RBF<A, C>, d: u64, n: usize
         }
         k += 1;
     }
-    // service_needed_by_n_jobs: the sum of the n largest job costs (selection in the harness)
-    let by_n = u64::from(rbf.service_needed_by_n_jobs(Duration::from(d), n));
+    (total, jobs, costs)
+}
+
+/// sum of the n largest of the first `jobs` entries of `costs` (selection, no sorting)
+fn n_largest(costs: &[u64; MAXJ], jobs: usize, n: usize) -> u64 {
     let mut used = [false; MAXJ];
     let mut want = 0u64;
     let mut round = 0;
     while round < MAXJ {
         if round < n {
-            // pick the largest unused cost
             let mut best = 0u64;
             let mut best_i = MAXJ;
             let mut i = 0;
@@ -78,15 +81,7 @@ fn rbf_facts<A: ArrivalBound, C: JobCostModel>(rbf: &RBF<A, C>, d: u64, n: usize
         }
         round += 1;
     }
-    assert!(by_n == want);
-    assert!(by_n <= total);
-    if n >= jobs {
-        assert!(by_n == total);
-    }
-    // non-decreasing in n
-    let by_n1 = u64::from(rbf.service_needed_by_n_jobs(Duration::from(d), n + 1));
-    assert!(by_n <= by_n1);
-    total
+    want
 }
 
 harness!(c16_rbf_sporadic_scalar, 8, |s| {
@@ -94,9 +89,8 @@ harness!(c16_rbf_sporadic_scalar, 8, |s| {
     let c = s.from(1, 7);
     let rbf = RBF::new(sp, Scalar::new(Service::from(c)));
     let d = s.bits(7);
-    let n = s.bits(7) as usize;
-    let total = rbf_facts(&rbf, d, n);
-    cover!(total >= 12 && n >= 1 && n < 3, "3+ jobs, job limit below the number of jobs");
+    let (total, jobs, _) = rbf_basic(&rbf, d);
+    cover!(total >= 12 && jobs >= 3, "3+ jobs, total >= 12");
 });
 
 harness!(c16_rbf_sporadic_multiframe, 8, |s| {
@@ -107,9 +101,8 @@ harness!(c16_rbf_sporadic_multiframe, 8, |s| {
     v.push(Service::from(s.from(1, 7)));
     let rbf = RBF::new(sp, Multiframe::new(v));
     let d = s.bits(7);
-    let n = s.bits(7) as usize;
-    let total = rbf_facts(&rbf, d, n);
-    cover!(total >= 9 && n == 2, "job limit 2 with 3+ jobs of different costs");
+    let (total, jobs, _) = rbf_basic(&rbf, d);
+    cover!(total >= 9 && jobs >= 3, "3+ jobs of different costs");
 });
 
 harness!(c16_rbf_symcurve_wcetcurve, 8, |s| {
@@ -118,21 +111,59 @@ harness!(c16_rbf_symcurve_wcetcurve, 8, |s| {
     assume(subadditive(&w, 3));
     let rbf = RBF::new(ab, mk_wcet_curve(&w, 3));
     let d = s.bits(7);
-    let n = s.bits(3) as usize;
-    let total = rbf_facts(&rbf, d, n);
-    cover!(total >= 5 && n == 2, "job limit 2, total >= 5");
+    let (total, jobs, _) = rbf_basic(&rbf, d);
+    cover!(total >= 5 && jobs == 3, "3 jobs, total >= 5");
 });
 
-// ---- Aggregate and Slice of two components
-fn two_components(s: &mut Src) -> [RBF<Sporadic, Scalar>; 2] {
-    let (s1, _, _) = any_sporadic(s, 3, 3);
-    let (s2, _, _) = any_sporadic(s, 3, 3);
+// ---- service_needed_by_n_jobs (default method: sorts the job costs): the number of jobs is a
+// concrete shape (a burst of K jobs in every non-empty interval), the costs and n are symbolic
+fn by_n_jobs_body(s: &mut Src, k: usize) {
+    let burst = match k {
+        2 => SymCurve::concrete(&[1, 1]),
+        _ => SymCurve::concrete(&[1, 1, 1]),
+    };
+    let mut v = Vec::with_capacity(8);
+    v.push(Service::from(s.from(1, 7)));
+    v.push(Service::from(s.from(1, 7)));
+    v.push(Service::from(s.from(1, 7)));
+    let rbf = RBF::new(burst, Multiframe::new(v));
+    let d = Duration::from(1);
+    let total = sn(&rbf, 1);
+    let mut costs = [0u64; MAXJ];
+    let mut it = rbf.job_cost_iter(d);
+    let mut i = 0;
+    while i < MAXJ {
+        if i < k {
+            costs[i] = u64::from(it.next().unwrap());
+        }
+        i += 1;
+    }
+    let n = s.bits(7) as usize;
+    let by_n = u64::from(rbf.service_needed_by_n_jobs(d, n));
+    assert!(by_n == n_largest(&costs, k, n));
+    assert!(by_n <= total);
+    if n >= k {
+        assert!(by_n == total);
+    }
+    let by_n1 = u64::from(rbf.service_needed_by_n_jobs(d, n + 1));
+    assert!(by_n <= by_n1);
+    cover!(n >= 1 && n < k && by_n < total && costs[0] < costs[1], "effective limit, first frame not the largest");
+}
+harness!(c16_by_n_jobs_k2, 8, |s| { by_n_jobs_body(s, 2); });
+harness!(c16_by_n_jobs_k3, 8, |s| { by_n_jobs_body(s, 3); });
+
+// ---- Aggregate and Slice of two components (each a burst of two jobs, symbolic scalar costs)
+fn two_components(s: &mut Src) -> [RBF<SymCurve, Scalar>; 2] {
     let c1 = s.from(1, 7);
     let c2 = s.from(1, 7);
-    [RBF::new(s1, Scalar::new(Service::from(c1))), RBF::new(s2, Scalar::new(Service::from(c2)))]
+    let second = SymCurve::any(s, 2, 3);
+    [
+        RBF::new(SymCurve::concrete(&[1, 1]), Scalar::new(Service::from(c1))),
+        RBF::new(second, Scalar::new(Service::from(c2))),
+    ]
 }
 
-fn aggregate_facts<G: AggregateRequestBound>(agg: &G, comps: &[RBF<Sporadic, Scalar>; 2], d: u64, n: usize) {
+fn aggregate_facts<G: AggregateRequestBound>(agg: &G, comps: &[RBF<SymCurve, Scalar>; 2], d: u64, n: usize) {
     let dd = Duration::from(d);
     assert!(sn(agg, d) == sn(&comps[0], d) + sn(&comps[1], d));
     // least_wcet_in_interval: no larger than the smallest job cost of any component with jobs
@@ -145,8 +176,16 @@ fn aggregate_facts<G: AggregateRequestBound>(agg: &G, comps: &[RBF<Sporadic, Sca
         i += 1;
     }
     // per-component restriction = sum of the components' restricted demands
+    // (scalar costs: min(n, jobs) * cost, recomputed here)
     let per = u64::from(agg.service_needed_by_n_jobs_per_component(dd, n));
-    let want = u64::from(comps[0].service_needed_by_n_jobs(dd, n)) + u64::from(comps[1].service_needed_by_n_jobs(dd, n));
+    let mut want = 0u64;
+    let mut i = 0;
+    while i < 2 {
+        let jobs = comps[i].arrival_bound.number_arrivals(dd) as u64;
+        let m = if (n as u64) < jobs { n as u64 } else { jobs };
+        want += m * u64::from(comps[i].wcet.wcet);
+        i += 1;
+    }
     assert!(per == want);
     assert!(per <= sn(agg, d));
     cover!(per < sn(agg, d) && per > 0, "restriction is effective");
@@ -156,8 +195,6 @@ harness!(c16_slice, 8, |s| {
     let comps = two_components(s);
     let d = s.bits(7);
     let n = s.bits(3) as usize;
-    assume(comps[0].arrival_bound.number_arrivals(Duration::from(d)) <= MAXJ);
-    assume(comps[1].arrival_bound.number_arrivals(Duration::from(d)) <= MAXJ);
     let sl = Slice::of(&comps[..]);
     aggregate_facts(&sl, &comps, d, n);
 });
@@ -166,8 +203,6 @@ harness!(c16_aggregate, 8, |s| {
     let comps = two_components(s);
     let d = s.bits(7);
     let n = s.bits(3) as usize;
-    assume(comps[0].arrival_bound.number_arrivals(Duration::from(d)) <= MAXJ);
-    assume(comps[1].arrival_bound.number_arrivals(Duration::from(d)) <= MAXJ);
     let mut v = Vec::with_capacity(4);
     v.push(comps[0].clone());
     v.push(comps[1].clone());
@@ -192,6 +227,7 @@ harness!(c16_boxed_and_referenced, 8, |s| {
 pub fn register(t: &mut Table) {
     reg!(t;
         c16_rbf_sporadic_scalar, c16_rbf_sporadic_multiframe, c16_rbf_symcurve_wcetcurve,
+        c16_by_n_jobs_k2, c16_by_n_jobs_k3,
         c16_slice, c16_aggregate, c16_boxed_and_referenced,
     );
 }
